@@ -208,9 +208,11 @@ func (d *SevData) validateSections() error {
 	allocatedTypeAddress := make(map[uint32]uint32)
 
 	// An internal sortable type to check for overlap
+	// Section bounds are kept in 64 bits: a section that ends at or beyond 4 GiB must not wrap to a
+	// small end address and escape the overlap check.
 	type sectionCheck struct {
-		start uint32
-		end   uint32
+		start uint64
+		end   uint64
 		kind  uint32
 	}
 	checkData := make([]sectionCheck, len(d.snpMetadataSections))
@@ -237,8 +239,8 @@ func (d *SevData) validateSections() error {
 				SevSectionTypeToString(section.Kind), section.Length)
 		}
 		checkData[i] = sectionCheck{
-			start: section.Address,
-			end:   section.Address + section.Length,
+			start: uint64(section.Address),
+			end:   uint64(section.Address) + uint64(section.Length),
 			kind:  section.Kind}
 	}
 
